@@ -133,7 +133,7 @@ SPEC = r"""
         is_digit(old(self).scanner.text()[old(self).scanner.pos()]),
     ensures
         final(self).scanner.text() == old(self).scanner.text(), final(self).scanner.wf(),
-        run_ok(old(self).scanner.text(), old(self).scanner.pos(), final(self).scanner.pos()), // [C09_C03:an_integer_literal_is_the_maximal_run_of_digits_and_underscore_separators]
+        run_ok(old(self).scanner.text(), old(self).scanner.pos(), final(self).scanner.pos()), // [C02_C03_C09:an_integer_literal_is_the_maximal_run_of_digits_and_underscore_separators]
         ({
             let t = old(self).scanner.text();
             let raw = t.subrange(old(self).scanner.pos(), final(self).scanner.pos());
@@ -186,9 +186,9 @@ def build(read):
                 self.scanner.text() == old(self).scanner.text(), self.scanner.wf(),
                 old(self).scanner.pos() <= self.scanner.pos() <= self.scanner.text().len(),
                 start == byte_off(self.scanner.text(), old(self).scanner.pos()),
-                forall|i: int| old(self).scanner.pos() <= i < self.scanner.pos() ==> int_char(#[trigger] self.scanner.text()[i]), // [C09_C03:an_integer_literal_is_the_maximal_run_of_digits_and_underscore_separators]
+                forall|i: int| old(self).scanner.pos() <= i < self.scanner.pos() ==> int_char(#[trigger] self.scanner.text()[i]), // [C02_C03_C09:an_integer_literal_is_the_maximal_run_of_digits_and_underscore_separators]
             ensures
-                self.scanner.pos() < self.scanner.text().len() ==> !int_char(self.scanner.text()[self.scanner.pos()]), // [C09_C03:an_integer_literal_is_the_maximal_run_of_digits_and_underscore_separators]
+                self.scanner.pos() < self.scanner.text().len() ==> !int_char(self.scanner.text()[self.scanner.pos()]), // [C02_C03_C09:an_integer_literal_is_the_maximal_run_of_digits_and_underscore_separators]
             decreases self.scanner.text().len() - self.scanner.pos(), // [C03:scanning_an_integer_literal_terminates]"""}}
     f = extract.annotate_fn(hdr + body, spec=SPEC, attrs="#[verifier::loop_isolation(false)]\n#[verifier::allow_complex_invariants]", loops=loops)
     f = extract.rewrite_regex_once(f, r"(let end = self\.scanner\.index;)",
